@@ -261,3 +261,282 @@ pub fn mutate_gentle(d: &mut Draw, pieces: &[Piece], max_edits: usize) -> Mutate
         junk: 0,
     }
 }
+
+// ---------------------------------------------------------------------------
+// C11: structural edits ("partially edited programs")
+// ---------------------------------------------------------------------------
+
+pub struct StructMutated {
+    pub text: String,
+    /// names of the edit operators applied
+    pub ops: Vec<&'static str>,
+}
+
+fn is_open(t: &str) -> bool {
+    matches!(t, "{" | "(" | "[" | "#[" | "'{")
+}
+
+fn is_close(t: &str) -> bool {
+    matches!(t, "}" | ")" | "]")
+}
+
+/// Item (declaration / statement) starting at token `i`: up to and including
+/// the `;` at relative depth 0, or the `}` that closes a `{` opened at
+/// relative depth 0 (continuing over `else`).  `None` if `i` does not start a
+/// balanced item.
+fn item_end(toks: &[String], i: usize) -> Option<usize> {
+    let mut depth = 0i32;
+    let mut k = i;
+    while k < toks.len() {
+        let t = toks[k].as_str();
+        if is_open(t) {
+            depth += 1;
+        } else if is_close(t) {
+            depth -= 1;
+            if depth < 0 {
+                return None;
+            }
+            if depth == 0 && t == "}" {
+                if toks.get(k + 1).map(|s| s == "else").unwrap_or(false) {
+                    k += 1;
+                    continue;
+                }
+                return Some(k + 1);
+            }
+        } else if t == ";" && depth == 0 {
+            return Some(k + 1);
+        }
+        k += 1;
+    }
+    None
+}
+
+/// Token indices at which an item starts (after `;`, `{`, `}`), with the
+/// brace depth there.
+fn item_starts(toks: &[String]) -> Vec<(usize, usize)> {
+    let mut out = Vec::new();
+    let mut depth = 0usize;
+    for i in 0..toks.len() {
+        let prev = if i == 0 { ";" } else { toks[i - 1].as_str() };
+        if matches!(prev, ";" | "{" | "}") && !matches!(toks[i].as_str(), "}" | "else" | ")" | "]" | ",") {
+            out.push((i, depth));
+        }
+        let t = toks[i].as_str();
+        if t == "{" {
+            depth += 1;
+        } else if t == "}" {
+            depth = depth.saturating_sub(1);
+        }
+    }
+    out
+}
+
+/// A balanced bracket group `( … )` / `[ … ]` / `{ … }` starting at `i`.
+fn group_end(toks: &[String], i: usize) -> Option<usize> {
+    if !is_open(&toks[i]) {
+        return None;
+    }
+    let mut depth = 0i32;
+    for k in i..toks.len() {
+        let t = toks[k].as_str();
+        if is_open(t) {
+            depth += 1;
+        } else if is_close(t) {
+            depth -= 1;
+            if depth == 0 {
+                return Some(k + 1);
+            }
+        }
+    }
+    None
+}
+
+const DECL_KW: &[&str] = &[
+    "var", "let", "const", "param", "function", "module", "interface", "package", "struct", "enum", "union", "type", "inst", "modport",
+    "import", "alias", "proto",
+];
+
+/// 1–4 structural edits of a corpus token list.  `narrow` (quick tier) keeps
+/// to the operators whose crash sites were harvested exhaustively.
+pub fn mutate_struct(d: &mut Draw, file: &[String], donor: &[String], narrow: bool) -> StructMutated {
+    let mut toks: Vec<String> = file.to_vec();
+    let mut ops = Vec::new();
+    // focus: keep a few top-level items only (small cases analyse fast and read well)
+    if d.chance(2, 3) {
+        let tops: Vec<(usize, usize)> = item_starts(&toks).into_iter().filter(|x| x.1 == 0).collect();
+        if tops.len() > 2 {
+            let keep_n = d.usize_in(1, 3.min(tops.len()));
+            let first = d.below_usize(tops.len() - keep_n + 1);
+            let s = tops[first].0;
+            let e = if first + keep_n < tops.len() { tops[first + keep_n].0 } else { toks.len() };
+            toks = toks[s..e].to_vec();
+            ops.push("focus");
+        }
+    }
+    let n_edits = d.usize_in(1, if narrow { 3 } else { 4 });
+    const NUMS: &[&str] = &[
+        "0", "1", "2", "3", "7", "8", "32", "33", "64", "65", "100", "1'b1", "8'hff", "'0", "'1", "'x", "'z", "4'bxz01", "32'hffff_ffff",
+        "64'd1", "128'h1", "1.5", "1e3", "4294967296", "18446744073709551615",
+    ];
+    for _ in 0..n_edits {
+        if toks.len() < 4 {
+            break;
+        }
+        let i = d.below_usize(toks.len());
+        // weights: ident swap, same-class, rename-decl, delete item, duplicate item, splice own, splice donor, group swap, dir/type edit, number
+        let w: [u32; 10] = if narrow { [5, 4, 3, 4, 2, 2, 2, 2, 3, 2] } else { [5, 4, 3, 4, 2, 3, 4, 3, 3, 2] };
+        match d.weighted(&w) {
+            0 => {
+                // identifier swap: an identifier occurrence becomes another identifier of the file
+                let ids: Vec<usize> = (0..toks.len()).filter(|&j| class_of(&toks[j]) == 8).collect();
+                if ids.len() >= 2 {
+                    let a = ids[d.below_usize(ids.len())];
+                    let b = ids[d.below_usize(ids.len())];
+                    if toks[a] != toks[b] {
+                        toks[a] = toks[b].clone();
+                        ops.push("ident_swap");
+                    }
+                }
+            }
+            1 => {
+                let c = class_of(&toks[i]);
+                if c != 0 && c != 7 {
+                    let cands: Vec<usize> = (0..toks.len()).filter(|&j| j != i && class_of(&toks[j]) == c && toks[j] != toks[i]).collect();
+                    if !cands.is_empty() && d.chance(2, 3) {
+                        let j = cands[d.below_usize(cands.len())];
+                        toks[i] = toks[j].clone();
+                    } else {
+                        let pool: Vec<&&str> = POOL.iter().filter(|t| class_of(t) == c).collect();
+                        if !pool.is_empty() {
+                            toks[i] = pool[d.below_usize(pool.len())].to_string();
+                        }
+                    }
+                    ops.push("same_class");
+                }
+            }
+            2 => {
+                // rename a declared name (uses dangle) or make it collide with another name
+                let decls: Vec<usize> = (0..toks.len().saturating_sub(1))
+                    .filter(|&j| DECL_KW.contains(&toks[j].as_str()) && class_of(&toks[j + 1]) == 8)
+                    .collect();
+                if !decls.is_empty() {
+                    let j = decls[d.below_usize(decls.len())] + 1;
+                    let ids: Vec<usize> = (0..toks.len()).filter(|&k| class_of(&toks[k]) == 8).collect();
+                    toks[j] = if d.bool() || ids.is_empty() {
+                        format!("{}_x", toks[j])
+                    } else {
+                        toks[ids[d.below_usize(ids.len())]].clone()
+                    };
+                    ops.push("rename_decl");
+                }
+            }
+            3 | 4 | 5 => {
+                let starts = item_starts(&toks);
+                if starts.is_empty() {
+                    continue;
+                }
+                let (s, _) = starts[d.below_usize(starts.len())];
+                let Some(e) = item_end(&toks, s) else { continue };
+                if e - s >= toks.len() {
+                    continue;
+                }
+                let item: Vec<String> = toks[s..e].to_vec();
+                match d.weighted(&[4, 2, 2]) {
+                    0 => {
+                        toks.drain(s..e);
+                        ops.push("delete_item");
+                    }
+                    1 => {
+                        toks.splice(e..e, item);
+                        ops.push("dup_item");
+                    }
+                    _ => {
+                        // move / copy the item to another item boundary of the file
+                        let (t, _) = starts[d.below_usize(starts.len())];
+                        if t < s || t >= e {
+                            toks.splice(t..t, item);
+                            ops.push("splice_own");
+                        }
+                    }
+                }
+            }
+            6 => {
+                // sub-tree of another corpus file inserted at an item boundary
+                let ds = item_starts(donor);
+                let starts = item_starts(&toks);
+                if ds.is_empty() || starts.is_empty() {
+                    continue;
+                }
+                let (s, _) = ds[d.below_usize(ds.len())];
+                let Some(e) = item_end(donor, s) else { continue };
+                if e - s > 200 {
+                    continue;
+                }
+                let (t, _) = starts[d.below_usize(starts.len())];
+                toks.splice(t..t, donor[s..e].iter().cloned());
+                ops.push("splice_donor");
+            }
+            7 => {
+                // a bracket group replaced by another bracket group of the same kind
+                let groups: Vec<usize> = (0..toks.len()).filter(|&j| matches!(toks[j].as_str(), "(" | "[")).collect();
+                if groups.len() >= 2 {
+                    let a = groups[d.below_usize(groups.len())];
+                    let same: Vec<usize> = groups.iter().copied().filter(|&j| j != a && toks[j] == toks[a]).collect();
+                    if same.is_empty() {
+                        continue;
+                    }
+                    let b = same[d.below_usize(same.len())];
+                    let (Some(ae), Some(be)) = (group_end(&toks, a), group_end(&toks, b)) else { continue };
+                    if (a < b && ae > b) || (b < a && be > a) || be - b > 120 {
+                        continue;
+                    }
+                    let rep: Vec<String> = toks[b..be].to_vec();
+                    toks.splice(a..ae, rep);
+                    ops.push("group_swap");
+                }
+            }
+            8 => {
+                // direction / type keyword edits
+                const TYPES: &[&str] = &["logic", "bit", "u8", "u32", "u64", "i32", "i64", "f32", "f64", "bool", "clock", "reset", "string", "type", "tri logic", "signed logic", "clock_posedge", "reset_async_low"];
+                const DIRS: &[&str] = &["input", "output", "inout", "modport", "interface", "import"];
+                let cands: Vec<usize> = (0..toks.len()).filter(|&j| matches!(class_of(&toks[j]), 1 | 2)).collect();
+                if !cands.is_empty() {
+                    let j = cands[d.below_usize(cands.len())];
+                    toks[j] = if class_of(&toks[j]) == 1 { d.pick(TYPES).to_string() } else { d.pick(DIRS).to_string() };
+                    ops.push("dir_type_kw");
+                }
+            }
+            _ => {
+                let cands: Vec<usize> = (0..toks.len()).filter(|&j| class_of(&toks[j]) == 7).collect();
+                if !cands.is_empty() {
+                    let j = cands[d.below_usize(cands.len())];
+                    toks[j] = d.pick(NUMS).to_string();
+                    ops.push("number");
+                }
+            }
+        }
+    }
+    let mut text = String::new();
+    let mut depth = 0usize;
+    for (k, t) in toks.iter().enumerate() {
+        if t == "}" {
+            depth = depth.saturating_sub(1);
+        }
+        text.push_str(t);
+        let brk = matches!(t.as_str(), ";" | "{" | "}") || k + 1 == toks.len();
+        if brk {
+            text.push('\n');
+            let next_close = toks.get(k + 1).map(|s| s == "}").unwrap_or(false);
+            let ind = if t == "{" { depth + 1 } else { depth };
+            for _ in 0..ind.saturating_sub(next_close as usize) {
+                text.push_str("    ");
+            }
+        } else {
+            text.push(' ');
+        }
+        if t == "{" {
+            depth += 1;
+        }
+    }
+    StructMutated { text, ops }
+}
